@@ -120,7 +120,7 @@ Theorem C20_tick_never_blocks : forall n b, sb_unsub b = false -> (sb_len b <= s
 Proof. exact sub_publish_n_account. Qed.
 Print Assumptions C20_tick_never_blocks.
 
-(* ---------------------------------------------------------------- what today's code violates *)
+(* ---------------------------------------------------------------- historical witnesses: what the code violated before 36aca6a *)
 Definition tA : tuple := [[65]]%N.
 Definition tB : tuple := [[66]]%N.
 Definition tC : tuple := [[67]]%N.
@@ -230,14 +230,14 @@ Theorem C20_reg_unique : forall v os sched,
 Proof. exact reg_unique. Qed.
 Print Assumptions C20_reg_unique.
 
-(* with fixes/C20_register_type_race.patch no interleaving of registrations panics *)
+(* /repo HEAD (efcd108): no interleaving of registrations panics *)
 Theorem C20_reg_no_panic : forall os sched,
   let x := rrun_sched Repaired (rsys0 os) sched in
   forall i th, nth_error (rths x) i = Some th -> rt_pc th <> RPDone RRPanic.
 Proof. exact reg_no_panic. Qed.
 Print Assumptions C20_reg_no_panic.
 
-(* today's code: RegisterCounter and RegisterGauge racing for one name; both miss the Load, the counter is published,
+(* the code before efcd108 (fixed in efcd108): RegisterCounter and RegisterGauge racing for one name; both miss the Load, the counter is published,
    the gauge's LoadOrStore finds it and the unchecked type assertion panics *)
 Definition w3_opts : list ropts :=
   [{| ro_name := 97%N; ro_kind := KCounter; ro_nl := 1 |}; {| ro_name := 97%N; ro_kind := KGauge; ro_nl := 1 |}].
